@@ -73,6 +73,18 @@ theorem encode_structure (t : RawTriangle) :
   have hv : K.version = [1] := by decide
   simp [encode, hm, hv, writePool, writeStr]
 
+/-- the string pool is sorted: strictly ascending in UTF-8 byte order (= code point order), with an
+unused empty placeholder before every key that would land on an index whose low byte is `0x88` -/
+theorem pool_sorted (t : RawTriangle) :
+    (sortedKeys t).Pairwise (fun a b => bytesLe a b = true ∧ a ≠ b) ∧
+    poolOf t = padPool (sortedKeys t) 0 ∧
+    (∀ k ks n, padPool (k :: ks) n =
+      if n % 256 = 0x88 then [] :: k :: padPool ks (n + 2) else k :: padPool ks (n + 1)) := by
+  refine ⟨sortedKeys_sorted t, rfl, ?_⟩
+  intro k ks n
+  have hd : K.tDictEnd.toNat = 0x88 := by decide
+  simp [padPool, hd]
+
 /-- field widths: dates 4 bytes, ints and floats 8 bytes after the tag byte, dims 4 bytes each -/
 theorem field_widths (d : Date) (i : Int) (n : Nat) :
     (writeDate d).length = 4 ∧ (writeVal (.int i)).length = 9 ∧ (natLE 4 n).length = 4 ∧
